@@ -380,9 +380,28 @@ var RealValues = map[string]interface{}{
 	}{Message: stanza.Message{Type: stanza.ErrorMessage, ID: "own"}, Body: "a<b"},
 }
 
+// InnerValue is marshaled by reflection: the encoder writes the element and its
+// attributes, Inner is copied verbatim between the tags.
+type InnerValue struct {
+	XMLName xml.Name
+	Attrs   []xml.Attr `xml:",any,attr"`
+	Inner   string     `xml:",innerxml"`
+}
+
 func goValue(c *Call, form string, src []MTok, fail, merr bool) interface{} {
 	if strings.HasPrefix(form, "real:") {
 		return RealValues[strings.TrimPrefix(form, "real:")]
+	}
+	if form == "innerxml" {
+		v := InnerValue{}
+		if len(src) > 0 {
+			st, _ := src[0].XML().(xml.StartElement)
+			v.XMLName, v.Attrs = st.Name, st.Attr
+		}
+		if c != nil {
+			v.Inner = c.Text
+		}
+		return v
 	}
 	switch form {
 	case "writerto":
@@ -435,6 +454,8 @@ func ErrClass(err error) string {
 type Target struct {
 	X    *Sess
 	Bare xmlstream.TokenWriteFlusher
+	// Keep (if not nil) retains the token writers of executed token writer calls
+	Keep map[*Call]xmlstream.TokenWriteFlushCloser
 	// OnWait is called when a waiting SendX call has written its element and is
 	// about to wait for the response; it must make the wait end.
 }
@@ -495,7 +516,13 @@ func (tg *Target) exec(c *Call, src []MTok) []string {
 			out = append(out, ErrClass(w.Flush()))
 		}
 		out = append(out, ErrClass(w.Close()))
-		c.Second = ErrClass(w.EncodeToken(xml.CharData("late"))) + "," + ErrClass(w.Close())
+		// a closed writer refuses tokens. (A second Close is exercised only by the
+		// double-close scenarios, while another call holds the lock: should Close
+		// unlock again, an unlock of a free mutex would end the process.)
+		c.Second = ErrClass(w.EncodeToken(xml.CharData("late")))
+		if tg.Keep != nil {
+			tg.Keep[c] = w
+		}
 		return out
 	case "close":
 		return one(s.Close())
@@ -509,9 +536,9 @@ func (tg *Target) execBare(c *Call, src []MTok) []string {
 	w := tg.Bare
 	switch c.Kind {
 	case "encode":
-		return one(xmpp.VerifEncodeXML(w, GoValue(c.Form, src, c.Fail, c.MErr)))
+		return one(xmpp.VerifEncodeXML(w, goValue(c, c.Form, src, c.Fail, c.MErr)))
 	case "encodeelement":
-		return one(xmpp.VerifEncodeXMLElement(w, GoValue(c.Form, src, c.Fail, c.MErr), c.Start.XML().(xml.StartElement)))
+		return one(xmpp.VerifEncodeXMLElement(w, goValue(c, c.Form, src, c.Fail, c.MErr), c.Start.XML().(xml.StartElement)))
 	case "tokenwriter":
 		var out []string
 		for _, t := range src {
